@@ -170,6 +170,10 @@ func unmarshalList(dec *msgpack.Decoder, ety cty.Type, path cty.Path) (cty.Value
 		vals = append(vals, val)
 	}
 
+	if !cty.CanListVal(vals) {
+		return cty.DynamicVal, path[:len(path)-1].NewErrorf("all list elements must have the same type")
+	}
+
 	return cty.ListVal(vals), nil
 }
 
@@ -199,6 +203,10 @@ func unmarshalSet(dec *msgpack.Decoder, ety cty.Type, path cty.Path) (cty.Value,
 		}
 
 		vals = append(vals, val)
+	}
+
+	if !cty.CanSetVal(vals) {
+		return cty.DynamicVal, path[:len(path)-1].NewErrorf("all set elements must have the same type")
 	}
 
 	return cty.SetVal(vals), nil
@@ -235,6 +243,10 @@ func unmarshalMap(dec *msgpack.Decoder, ety cty.Type, path cty.Path) (cty.Value,
 		}
 
 		vals[key] = val
+	}
+
+	if !cty.CanMapVal(vals) {
+		return cty.DynamicVal, path[:len(path)-1].NewErrorf("all map elements must have the same type")
 	}
 
 	return cty.MapVal(vals), nil
